@@ -20,6 +20,7 @@ type peSpec struct {
 	CertBodies []int // body lengths of WIN_CERTIFICATE entries (empty: no table)
 	Machine    uint16
 	Seed       int64
+	VSizes     []int // per section (file order): -1 keep the random VirtualSize, otherwise set it to this value (0: "use SizeOfRawData")
 }
 
 func (s peSpec) class() string {
@@ -66,6 +67,8 @@ func genPeSpec(c *Ctx, big bool) peSpec {
 			g = 1 + r.Intn(40)
 		}
 		s.Gaps = append(s.Gaps, g)
+		// VirtualSize: random, 0 (loaders then use SizeOfRawData), equal to or larger than the raw size
+		s.VSizes = append(s.VSizes, []int{-1, -1, 0, 0, z, z + 4096}[r.Intn(6)])
 	}
 	s.HdrOrder = r.Perm(nsec)
 	if r.Intn(3) == 0 {
@@ -155,6 +158,9 @@ func buildPE(s peSpec) builtPE {
 		binary.LittleEndian.PutUint32(hdr[e+16:], uint32(s.SecSizes[k]))
 		binary.LittleEndian.PutUint32(hdr[e+20:], uint32(secOff[k]))
 		binary.LittleEndian.PutUint16(hdr[e+32:], 0) // NumberOfRelocations
+		if k < len(s.VSizes) && s.VSizes[k] >= 0 {
+			binary.LittleEndian.PutUint32(hdr[e+8:], uint32(s.VSizes[k])) // VirtualSize: not a layout field of the file
+		}
 		if s.SecSizes[k] == 0 && rng.next()%2 == 0 {
 			binary.LittleEndian.PutUint32(hdr[e+20:], uint32(rng.next()%4096)) // zero-size sections may point anywhere
 		}
@@ -206,7 +212,7 @@ func (m *splitMix) next() uint64 {
 func specCase(s peSpec) Case {
 	return Case{"op": "image", "plus": s.Plus, "lfanew": int64(s.Lfanew), "ndirs": int64(s.NDirs), "secsizes": intsI(s.SecSizes), "hdrorder": intsI(s.HdrOrder),
 		"gapafterh": int64(s.GapAfterH), "gaps": intsI(s.Gaps), "sohslack": int64(s.SohSlack), "trailing": int64(s.Trailing), "certbodies": intsI(s.CertBodies),
-		"machine": int64(s.Machine), "seed": s.Seed}
+		"machine": int64(s.Machine), "seed": s.Seed, "vsizes": intsI(s.VSizes)}
 }
 
 func intsI(xs []int) []interface{} {
@@ -238,5 +244,5 @@ func specOfCase(cs Case) peSpec {
 	plus, _ := cs["plus"].(bool)
 	return peSpec{Plus: plus, Lfanew: int(cs.I("lfanew")), NDirs: int(cs.I("ndirs")), SecSizes: caseInts(cs["secsizes"]), HdrOrder: caseInts(cs["hdrorder"]),
 		GapAfterH: int(cs.I("gapafterh")), Gaps: caseInts(cs["gaps"]), SohSlack: int(cs.I("sohslack")), Trailing: int(cs.I("trailing")), CertBodies: caseInts(cs["certbodies"]),
-		Machine: uint16(cs.I("machine")), Seed: cs.I("seed")}
+		Machine: uint16(cs.I("machine")), Seed: cs.I("seed"), VSizes: caseInts(cs["vsizes"])}
 }
